@@ -391,6 +391,8 @@ impl World {
                 | Form::StaticAndDynamic
                 | Form::DynamicAndStatic
                 | Form::TsTypesPragma
+                | Form::ImportType
+                | Form::ExportType
             ) =>
         {
           Form::Import
@@ -499,11 +501,11 @@ impl World {
           w(&t, false);
         }
         Form::ImportType => {
-          body.push_str(&format!("import type {{ T{ei} }} from \"{t}\";\n"));
+          body.push_str(&format!("import type {{ T{ei} }} from \"{t}\"{a};\n"));
           w(&t, false);
         }
         Form::ExportType => {
-          body.push_str(&format!("export type {{ U{ei} }} from \"{t}\";\n"));
+          body.push_str(&format!("export type {{ U{ei} }} from \"{t}\"{a};\n"));
           w(&t, false);
         }
         Form::Dynamic => {
